@@ -536,3 +536,35 @@ Proof.
   - rewrite filter_In. split; [intros [H1 H2]; auto|intros [H1 [H2|H2]]; [discriminate|auto]].
   - split; [auto|tauto].
 Qed.
+
+(* ------------------------------------------------------------------ *)
+(* onion failure packets *)
+
+Lemma failure_roundtrip oc F code L vs p :
+  lookup_layout F code = Some L -> lay_ok L = true -> code < 65536 ->
+  valid_vs oc L vs = true -> encode_failure F code vs = Some p ->
+  decode_failure oc F p = Some (code, vs) /\ blen p = 260.
+Proof.
+  intros HL Hok Hc Hv. unfold encode_failure.
+  destruct (write_message F code vs) as [m|] eqn:Em; [|discriminate].
+  pose proof (message_roundtrip oc F code L vs m HL Hok Hc Hv Em) as Hr.
+  destruct (N.ltb_spec failure_len (blen m)) as [|Hle]; [discriminate|].
+  intros H.
+  assert (Hp : p = be_enc 2 (blen m) ++ m ++ be_enc 2 (failure_len - blen m) ++
+                   repeat 0 (N.to_nat (failure_len - blen m))) by congruence.
+  subst p. clear H. unfold failure_len in *.
+  set (pad := 256 - blen m) in *.
+  assert (Hz : blen (repeat 0 (N.to_nat pad)) = pad).
+  { unfold blen. rewrite repeat_length. lia. }
+  split.
+  - unfold decode_failure. rewrite read_be_app, pow2, N.mod_small by lia. cbv beta iota.
+    rewrite take_app. cbv beta iota.
+    rewrite read_be_app, pow2, N.mod_small by (unfold pad; lia). cbv beta iota.
+    rewrite <- (app_nil_r (repeat 0 (N.to_nat pad))). rewrite <- Hz at 1. rewrite take_app.
+    cbv beta iota.
+    unfold failure_len. destruct (N.ltb_spec (blen m + pad) 256); [unfold pad in *; lia|].
+    exact Hr.
+  - assert (Hb : forall x, blen (be_enc 2 x) = 2)
+      by (intros; unfold blen; rewrite be_enc_length; reflexivity).
+    rewrite !blen_app, Hz, !Hb. unfold pad. lia.
+Qed.
